@@ -30,7 +30,95 @@ type c12vb struct {
 	fails            int
 }
 
+// checkC12r: the rebalance variant (scenario C12r, finite mode). One rule: once every vBucket stream of the
+// session in effect has ended for good (status ok: the requested end was reached), the client stops.
+func checkC12r(run *Run, res *Result) {
+	cfg := &run.Cfg
+	bound := int64(10_000_000_000) + cfg.CkptTimeout
+	type sess struct {
+		open     map[int]string // vb -> sid
+		ended    map[int]bool
+		started  bool
+		allEndT  int64
+		allEndN  int
+		sessions int
+	}
+	ms := map[int]*sess{}
+	get := func(m int) *sess {
+		if ms[m] == nil {
+			ms[m] = &sess{open: map[int]string{}, ended: map[int]bool{}, allEndT: -1}
+		}
+		return ms[m]
+	}
+	stopped := map[int]bool{}
+	closeCalled := map[int]bool{}
+	var endT int64
+	for i := range run.Evs {
+		e := &run.Evs[i]
+		if e.T > endT {
+			endT = e.T
+		}
+		switch e.K {
+		case journal.KHandler:
+			s := get(e.M)
+			switch e.S {
+			case "BeforeStreamStart":
+				s.open, s.ended, s.started, s.allEndT = map[int]string{}, map[int]bool{}, false, -1
+				s.sessions++
+			case "AfterStreamStart":
+				s.started = true
+			}
+		case journal.KSReq:
+			if e.S2 == "ok" {
+				get(e.M).open[e.Vb] = e.ID
+			}
+		case journal.KEmit:
+			s := get(e.M)
+			if e.S == "end" && s.open[e.Vb] == e.ID {
+				if e.I == 0 {
+					s.ended[e.Vb] = true
+					res.probe("final-end")
+				}
+				delete(s.open, e.Vb)
+				if len(s.open) == 0 && len(s.ended) > 0 && s.allEndT < 0 {
+					all := true
+					for range s.ended {
+					}
+					if all {
+						s.allEndT, s.allEndN = e.T, e.N
+						if s.sessions > 1 {
+							res.probe("finite-completion-after-rebalance")
+						}
+					}
+				}
+			}
+		case journal.KCall:
+			if e.S == "Close" {
+				closeCalled[e.M] = true
+			}
+		case journal.KRet:
+			if e.S == "Start" {
+				stopped[e.M] = true
+				res.probe("client-stopped-after-last-final-end")
+			}
+		}
+	}
+	if res.DeathKind != "" || !run.Ended {
+		return
+	}
+	for m, s := range ms {
+		if s.allEndT >= 0 && s.started && !stopped[m] && !closeCalled[m] && endT-s.allEndT > bound && len(s.open) == 0 {
+			res.violate("C12", "R4-did-not-stop-after-last-final-end", s.allEndN, "after-rebalance",
+				"member %d (finite mode, session %d): every vBucket stream had ended for good at event #%d; %s later the client still has not stopped", m, s.sessions, s.allEndN, fmtDur(endT-s.allEndT))
+		}
+	}
+}
+
 func checkC12(run *Run, res *Result) {
+	if run.Cfg.Prop == "C12r" {
+		checkC12r(run, res)
+		return
+	}
 	cfg := &run.Cfg
 	st := map[vbKey]*c12vb{}
 	get := func(k vbKey) *c12vb {
